@@ -43,7 +43,7 @@ CLAIMED = {
             'Decides for every option combination (abstract path) of every signature-handling command that all signature operands of each comparison sink have known-equal parameters (found the repaired `query -s` defect), '
             'that explicit -k/--prefix in dist agree with every operand, that every differ-path ends in raise click.ClickException before any sink/output, and the -k/--prefix / --db-params option discipline.',
             'click maps ClickException to a non-zero exit; KmerSpec equality is (k, prefix).'),
-    'C20': ('may-alias forward dataflow over the statement CFG + value-flow path conditions for the index dispatch + affine slice arithmetic with section rewriting + per-iteration model of the fill loop + identity-return rule + class-table rules',
+    'C20': ('may-alias forward dataflow over the statement CFG + value-flow path conditions for the index dispatch + affine slice arithmetic with section rewriting + per-iteration model of the fill loop + identity-return rule + class-table rules + class-hierarchy rule (every class inheriting the equality template evaluated with its own hooks)',
             'Decides that no in-place write can reach memory that may alias a caller argument (np.asarray/views alias, copy()/arithmetic are fresh; found the repaired index-buffer defect; positive control embedded), '
             'exhaustive index dispatch with the right errors, _check_index arithmetic, element/length/contiguous-slice arithmetic, kmerspec/dtype propagation into sub-collections, list delegation of SignatureList mutators, equality.',
             'slice.indices, np.arange, np.flatnonzero, np.array_equal; NumPy view semantics of np.asarray.'),
@@ -55,7 +55,7 @@ CLAIMED = {
             'Decides that genome/index lists are built in one block under one guard from one enumerate over the non-strict, order-preserving per-ID lookup; id map orientation; that the id_attr and completeness raises dominate every normal exit of the constructor; '
             'id attribute whitelist; exactly-one-file checks before a file is taken; that query() uses signatures, index list and genomes of one database object.',
             'SQLAlchemy row order (entity, added column); dict.get.'),
-    'C09': ('value-flow rule on the ordering expression and the list derivation (comprehension / append loop) + closest-match integrity + plain-record rule + package-wide sweep of ordering calls + C05-B5 (chunk-size independence of the distance row) re-evaluated',
+    'C09': ('value-flow rule on the ordering expression and the list derivation (comprehension / append loop) + closest-match integrity + plain-record rule + package-wide sweep of ordering calls + C05-B5 (chunk-size independence of the distance row) re-evaluated; when the structural rule cannot read the list derivation, bounded evaluation of the parsed get_result_item on rows of length 1..4 x N in {1,2,3,5} with an adversarial (tie-arbitrary) model of unstable sorts and a coverage side-condition',
             'Decides that the closest-genomes order is produced by a stable ascending sort of the whole distance row (found the repaired unstable-argsort defect), truncated by a prefix slice afterwards, that the closest match is the first minimum, '
             'that every entry pairs genome and distance through the one index and derives its taxon from that distance; every other ordering call in the package is classified.',
             "np.argsort kind='stable' is stable, the default is not; np.argmin first minimum."),
@@ -67,7 +67,7 @@ CLAIMED = {
             'Decides for EVERY completion order that a result is stored at the submit-time index of its own future (map store at the submit site, store index defined as map[f] of the same f, pre-sized list, no positional collection), '
             'that every future is awaited via .result() outside any handler, sequential branch order, worker identity, executor lifetime, list-preserving result.',
             'concurrent.futures semantics (result() re-raises; as_completed yields each future once).'),
-    'C01': ('symbolic trace of the search loops (find calls with affine start/end, restart at hit+1, exit on miss; two iterations unrolled to a fixpoint) + affine slice arithmetic per path + existential reading of the case-folding guard + sibling agreement of the accumulators + exhaustive evaluation of index_dtype for k = 1..32',
+    'C01': ('symbolic trace of the search loops (find calls with affine start/end, restart at hit+1, exit on miss; two iterations unrolled to a fixpoint; package generators are run by the trace) + affine slice arithmetic per path + existential reading of the case-folding guard + sibling agreement of the accumulators + exhaustive evaluation of index_dtype for k = 1..32',
             'Decides the premises of the set-equality argument: both search loops (start, window end, restart at loc+1, exit on miss, yielded '
             'position and strand), slice bounds per strand and their composition with the yielded positions (adjacent to the prefix, length k, '
             'inside the sequence), strand dispatch, ValueError-only skip discipline, case folding, both accumulators (dtype, storage, '
@@ -76,7 +76,7 @@ CLAIMED = {
     'C02': ('abstract interpretation of the merge kernel over the ordering domain {<,=,>} + affine normal forms + fused-type agreement + the Python dtype gate decided as a table over the complete domain of integer/float/bool dtypes (custom Cython front end)',
             'Decides that the kernel counts the union exactly for every pair of sorted arrays (the data are provably touched only through '
             'comparisons, so three orderings are exhaustive), the tail and zero-guard, that the result is one binary32 division of exactly '
-            'converted integers (2u-N-M)/u, the independent unsigned fused types, wrappers, and that every kernel operand passes the dtype gate.',
+            'converted integers (2u-N-M)/u, the independent unsigned fused types, wrappers, and that every kernel operand passes the dtype gate as the data the caller passed (not after a re-collection into a first-element-dtype array).',
             'C usual arithmetic conversions between unsigned widths; IEEE-754 correctly rounded division; sets < 2^24 elements.'),
     'C15': ('role-swap invariance of the facts extracted by the C02 abstract interpretation + the C02 kernel and dtype-gate rules and the C05 bulk-entry rules re-evaluated',
             'Decides bit-for-bit symmetry structurally (loop condition, ordering table, loads, tail and numerator are invariant under swapping the '
